@@ -423,7 +423,7 @@ func fieldMutate(rt *rapid.T, in []byte, label string) ([]byte, string) {
 	}
 	switch {
 	case n.Branch != nil:
-		switch gen.Uniform(rt, 0, 7, label+"bf") {
+		switch gen.Pick(rt, []int{0, 1, 2, 3, 4, 5, 6, 6, 6, 6, 7}, label+"bf") {
 		case 7:
 			if len(n.Branch.Hash) > 0 {
 				n.Branch.Hash = append([]byte(nil), n.Branch.Hash...)
@@ -433,9 +433,9 @@ func fieldMutate(rt *rapid.T, in []byte, label string) ([]byte, string) {
 		case 6:
 			// several slots at once hold long records (an embedded short node with a key rest of hundreds of elements)
 			if len(n.Branch.Children) >= 4 {
-				for k := gen.Uniform(rt, 2, 6, label+"ngrow"); k > 0; k-- {
+				for k := gen.Uniform(rt, 2, 7, label+"ngrow"); k > 0; k-- {
 					c := gen.Uniform(rt, 0, len(n.Branch.Children)-2, label+"gc")
-					grown := make([]byte, gen.Pick(rt, []int{73, 136, 137, 300, 500, 700, 800, 1000}, label+"glen"))
+					grown := make([]byte, gen.Pick(rt, []int{73, 137, 300, 500, 700, 800, 1000, 1000, 1000, 1000}, label+"glen"))
 					copy(grown, n.Branch.Children[c])
 					n.Branch.Children[c] = grown
 				}
@@ -821,6 +821,44 @@ func TestOversizeStateTrieNodes(t *testing.T) {
 				enc := refmpt.Encode(n)
 				acc, _ := tryCreateNode(t, enc)
 				ev.Case(fmt.Sprintf("oversize/%s/%d/%v", kind, size, acc), true, "state-trie-node-with-a-value-beyond-the-insert-limit")
+			}
+		}
+	})
+}
+
+// Branch records in which several slots hold long child records (an embedded short node with a key rest of hundreds of
+// elements) next to ordinary references: whatever the decoder makes of them, what it accepts must serialize again.
+func TestBranchesWithSeveralLongChildren(t *testing.T) {
+	ev.Guard(t, "TestBranchesWithSeveralLongChildren", func() {
+		seed := ev.SeedFor("TestBranchesWithSeveralLongChildren")
+		for nlong := 1; nlong <= 6; nlong++ {
+			for _, size := range []int{200, 500, 700, 1000, 1500} {
+				for _, where := range []string{"first", "last", "spread"} {
+					pb := wmpt.PersistNodeBranch{Hash: bytes.Repeat([]byte{byte(seed)}, 32)}
+					for i := 0; i < 16; i++ {
+						c := make([]byte, 40)
+						c[0], c[39] = byte(i+1), 1
+						long := false
+						switch where {
+						case "first":
+							long = i < nlong
+						case "last":
+							long = i >= 15-nlong && i < 15
+						default:
+							long = i%3 == 0 && i/3 < nlong
+						}
+						if long {
+							c = append(c, bytes.Repeat([]byte{byte(7 + i)}, 32+size)...)
+						}
+						pb.Children = append(pb.Children, c)
+					}
+					enc, err := cbor.Marshal(&wmpt.PersistNodeBase{Branch: &pb})
+					if err != nil {
+						t.Fatalf("HARNESS: %v", err)
+					}
+					acc, _ := tryDeserializeNode(t, enc)
+					ev.Case(fmt.Sprintf("longchildren/%d/%d/%s/%v", nlong, size, where, acc), nlong >= 3, "branch-with-several-long-children")
+				}
 			}
 		}
 	})
